@@ -20,9 +20,11 @@ META = {
         "extends every list-valued field of LSPModel, in order, from every further model. (d) gate: in main(), "
         "jsonschema.validate is applied to each loaded document before it is appended to the list handed to "
         "create_lsp_model, is not inside a try, and precedes create_lsp_model, the plugin import and the plugin "
-        "call; no write call precedes it."),
+        "call; no write call precedes it; the schema handed to validate constrains the document root (its root key "
+        "set, followed back to the json.load of lsp.schema.json and every later item assignment / merge, contains an "
+        "assertion keyword, and a root $ref names the MetaModel definition) -- without that the call accepts anything."),
     "trusted_base": ["attrs: a class called with an unknown keyword raises TypeError; converters run before validators",
-                     "jsonschema.validate raises on an invalid instance"],
+                     "jsonschema (draft-07): validate raises iff the instance violates an assertion keyword reachable from the schema root"],
     "assumptions": ["plugins are only entered through main()"],
     "not_decided": ["equality of documentation-only differences (by design not structural)",
                     "Request/Notification.params given as an array of types (schema allows it; the loader keeps the raw list)"],
@@ -31,6 +33,172 @@ META = {
 ANNOTATION_FIELDS = {"documentation", "since", "sinceTags", "proposed", "deprecated"}
 # generation hints, not structure (kept from the reference tree; reason recorded in DESIGN.md C18)
 EQ_EXCEPTIONS = {("Enum", "supportsCustomValues"), ("Request", "typeName"), ("Notification", "typeName")}
+
+
+ASSERTING_KEYWORDS = {"$ref", "type", "properties", "required", "additionalProperties", "allOf", "anyOf", "oneOf", "not",
+                      "if", "enum", "const", "patternProperties", "propertyNames", "minProperties", "maxProperties"}
+
+
+def _schema_constrains_root(ctx: Ctx, mm, order, vi, vcall, vfn):
+    """The gate only works if the schema handed to jsonschema.validate says something about the document root: a JSON
+    schema without assertion keywords at its root accepts every document.  The value of the schema argument is
+    followed backwards through main() and its helpers (assignments, json.load of the schema file, dict displays /
+    merges / item assignments, parameters of helpers); its root key set must contain an assertion keyword, and a root
+    `$ref` must name the MetaModel definition of lsp.schema.json."""
+    env: dict = {}
+    rets: dict = {}
+
+    def strs_of(node, fn):
+        out = set()
+        for n in ast.walk(node):
+            if isinstance(n, ast.Constant) and isinstance(n.value, str):
+                out.add(n.value)
+            elif isinstance(n, ast.Name):
+                v = env.get((fn.name, n.id))
+                if isinstance(v, dict) and "strs" in v:
+                    out |= v["strs"]
+        return out
+
+    def schema_file_value():
+        try:
+            root = ctx.src.json(P_SCHEMA)
+        except AnalysisError:
+            raise
+        if not isinstance(root, dict):
+            raise AnalysisError(f"{P_SCHEMA}: root is not an object")
+        return {"kind": "schema", "items": {k: (v if isinstance(v, (str, bool, int)) else "<object>") for k, v in root.items()}}
+
+    def ev(node, fn):
+        if isinstance(node, ast.Name):
+            v = env.get((fn.name, node.id))
+            if isinstance(v, dict) and v.get("kind") == "call":
+                r = rets.get(v["fn"])
+                return r
+            return v
+        if isinstance(node, ast.Call):
+            d = dotted(node.func) or ""
+            if d in ("json.load", "json.loads"):
+                ss = strs_of(node, fn)
+                if any(x.endswith("lsp.schema.json") for x in ss):
+                    return schema_file_value()
+                return {"kind": "json", "strs": ss}
+            if d in mm.functions:
+                return {"kind": "call", "fn": d}
+            if d in ("dict", "copy.deepcopy", "copy.copy") and node.args:
+                base = ev(node.args[0], fn)
+                if isinstance(base, dict) and base.get("kind") == "schema":
+                    items = dict(base["items"])
+                    for kw in node.keywords:
+                        if kw.arg is None:
+                            o = ev(kw.value, fn)
+                            if not (isinstance(o, dict) and o.get("kind") == "schema"):
+                                return None
+                            items.update(o["items"])
+                        else:
+                            items[kw.arg] = kw.value.value if isinstance(kw.value, ast.Constant) else "<expr>"
+                    return {"kind": "schema", "items": items}
+                return None
+            if isinstance(node.func, ast.Attribute) and node.func.attr == "copy" and not node.args:
+                return ev(node.func.value, fn)
+            return {"kind": "other", "strs": strs_of(node, fn)}
+        if isinstance(node, ast.Dict):
+            items = {}
+            for k, v in zip(node.keys, node.values):
+                if k is None:
+                    o = ev(v, fn)
+                    if not (isinstance(o, dict) and o.get("kind") == "schema"):
+                        return None
+                    items.update(o["items"])
+                elif isinstance(k, ast.Constant) and isinstance(k.value, str):
+                    items[k.value] = v.value if isinstance(v, ast.Constant) else "<expr>"
+                else:
+                    return None
+            return {"kind": "schema", "items": items}
+        if isinstance(node, ast.BinOp) and isinstance(node.op, ast.BitOr):
+            a, b = ev(node.left, fn), ev(node.right, fn)
+            if all(isinstance(x, dict) and x.get("kind") == "schema" for x in (a, b)):
+                return {"kind": "schema", "items": {**a["items"], **b["items"]}}
+            return None
+        if isinstance(node, ast.Constant):
+            return {"kind": "other", "strs": {node.value} if isinstance(node.value, str) else set()}
+        return {"kind": "other", "strs": strs_of(node, fn)}
+
+    def const(node):
+        return node.value if isinstance(node, ast.Constant) else "<expr>"
+
+    for i_, st, c, fn in order:
+        if i_ > vi:
+            break
+        # parameters of helpers called from this statement
+        if not isinstance(st, (ast.For, ast.If, ast.Try, ast.With, ast.While)):
+            for call in calls_in(st):
+                d = dotted(call.func)
+                if d in mm.functions and d != fn.name:
+                    prm = [a.arg for a in mm.functions[d].args.args]
+                    for pn, a in zip(prm, call.args):
+                        env[(d, pn)] = ev(a, fn)
+                    for kw in call.keywords:
+                        if kw.arg in prm:
+                            env[(d, kw.arg)] = ev(kw.value, fn)
+        if i_ == vi:
+            break
+        if isinstance(st, (ast.Assign, ast.AnnAssign)) and getattr(st, "value", None) is not None:
+            tgts = st.targets if isinstance(st, ast.Assign) else [st.target]
+            for t in tgts:
+                if isinstance(t, ast.Name):
+                    env[(fn.name, t.id)] = ev(st.value, fn)
+                elif isinstance(t, ast.Subscript) and isinstance(t.value, ast.Name):
+                    cur = env.get((fn.name, t.value.id))
+                    if isinstance(cur, dict) and cur.get("kind") == "schema":
+                        if isinstance(t.slice, ast.Constant) and isinstance(t.slice.value, str):
+                            cur["items"][t.slice.value] = const(st.value)
+                        else:
+                            env[(fn.name, t.value.id)] = None
+        elif isinstance(st, ast.Return) and st.value is not None:
+            rets[fn.name] = ev(st.value, fn)
+        elif isinstance(st, ast.Expr) and isinstance(st.value, ast.Call) and isinstance(st.value.func, ast.Attribute) \
+                and isinstance(st.value.func.value, ast.Name):
+            call = st.value
+            cur = env.get((fn.name, call.func.value.id))
+            if isinstance(cur, dict) and cur.get("kind") == "schema":
+                m = call.func.attr
+                if m == "setdefault" and len(call.args) == 2 and isinstance(call.args[0], ast.Constant):
+                    cur["items"].setdefault(call.args[0].value, const(call.args[1]))
+                elif m == "update" and len(call.args) == 1:
+                    o = ev(call.args[0], fn)
+                    if isinstance(o, dict) and o.get("kind") == "schema":
+                        cur["items"].update(o["items"])
+                    else:
+                        env[(fn.name, call.func.value.id)] = None
+                    for kw in call.keywords:
+                        if kw.arg:
+                            cur["items"][kw.arg] = const(kw.value)
+                elif m in ("pop", "clear", "popitem", "__delitem__", "__setitem__"):
+                    env[(fn.name, call.func.value.id)] = None
+        elif isinstance(st, ast.Delete):
+            for t in st.targets:
+                if isinstance(t, ast.Subscript) and isinstance(t.value, ast.Name):
+                    env[(fn.name, t.value.id)] = None
+    if len(vcall.args) < 2 and not any(k.arg == "schema" for k in vcall.keywords):
+        raise AnalysisError(f"{P_MAIN}: jsonschema.validate is not given a schema")
+    sarg = vcall.args[1] if len(vcall.args) >= 2 else next(k.value for k in vcall.keywords if k.arg == "schema")
+    sv = ev(sarg, vfn)
+    if not (isinstance(sv, dict) and sv.get("kind") == "schema"):
+        raise AnalysisError(f"{P_MAIN}:{vcall.lineno}: cannot determine the schema handed to jsonschema.validate "
+                            f"(`{ast.unparse(sarg)}`)")
+    items = sv["items"]
+    asserting = sorted(set(items) & ASSERTING_KEYWORDS)
+    ctx.check(bool(asserting), "gate-schema-constrains-document", "main:validate:schema-root",
+              f"the schema handed to jsonschema.validate has the root keys {sorted(items)}: none of them constrains the "
+              "document, so every model file passes validation and the generator runs on schema-violating models",
+              P_MAIN, vcall.lineno, sample={"root_keys": sorted(items)})
+    if "$ref" in items:
+        ref = items["$ref"]
+        defs = ctx.src.json(P_SCHEMA).get("definitions", {})
+        ok = isinstance(ref, str) and ref.startswith("#/definitions/") and ref.split("/")[-1] in defs
+        ctx.check(ok and ref == "#/definitions/MetaModel", "gate-schema-constrains-document", "main:validate:schema-root-ref",
+                  f"the root of the validation schema refers to {ref!r}; a model document is the schema's MetaModel",
+                  P_MAIN, vcall.lineno)
 
 
 def check_eq(ctx: Ctx, cname: str, info: dict, it, classes):
@@ -427,6 +595,7 @@ def run(ctx: Ctx):
         ctx.check(appended_ok and flows, "validate-dominates", "main:every-model-validated",
                   f"not every document handed to create_lsp_model is one that was just validated (list `{listname}`)",
                   P_MAIN, vst.lineno)
+        _schema_constrains_root(ctx, mm, order, vi, vcall, vfn)
         # no write before validation
         writes = []
         for i_, st, c, fn in order:
